@@ -138,6 +138,7 @@ class RefV:
 
 
 UNIT = AggV((), "()")
+ENV_PASS = object()
 # constants of crates outside /repo that the generated code refers to (molecule 0.9: `pub const NUMBER_SIZE: usize = 4`)
 KNOWN_CONSTS = {"molecule::NUMBER_SIZE": (4, "usize")}
 
@@ -147,6 +148,7 @@ ENUMS = {
     "Ordering": {"Less": -1, "Equal": 0, "Greater": 1},
     "ControlFlow": ["Continue", "Break"],
     "Bound": ["Included", "Excluded", "Unbounded"],
+    "Entry": ["Occupied", "Vacant"],       # std::collections::{hash_map,btree_map}::Entry
 }
 
 
@@ -206,6 +208,7 @@ class Path:
     outcome: str            # return | panic | stop | unsupported | unwind
     value: object = None    # return value / panic msg / stop info / unsupported text
     log: list = field(default_factory=list)     # observed calls: (tag, callee, args values)
+    post: dict = field(default_factory=dict)    # final contents of the `&mut` argument cells: id(holder frame) -> locals
     debug: dict = field(default_factory=dict)   # captured debug vars of the top frame (name -> value)
 
     def cond(self):
@@ -1442,8 +1445,11 @@ class Exec:
         # environment symbols declared by the obligation
         for rx, handler in self.ctx.env:
             if rx.search(callee):
+                r = handler(self, callee, args, dty)
+                if r is ENV_PASS:        # the handler declines this call (wrong value kind): try the next one
+                    continue
                 self.ctx.env_used.add(rx.pattern)
-                return handler(self, callee, args, dty)
+                return r
         r = B.try_builtin(self, fr, callee, args, dty)
         if r is not B.NOT_BUILTIN:
             return r
@@ -1455,6 +1461,14 @@ class Exec:
                 o = self.call_function(fnc, args, fr.depth + 1)
                 d = o.disc
                 return BoolV({"lt": T.eq(d, -1), "le": T.ne(d, 1), "gt": T.eq(d, 1), "ge": T.ne(d, -1)}[mo.group(2)])
+        # provided `Ord::max` / `Ord::min` (std: max_by/min_by over `Ord::cmp`; on Equal max returns the second, min the first)
+        mo = re.match(r"^<(.+) as (?:std::cmp::|core::cmp::)?Ord>::(max|min)$", callee)
+        if mo and len(args) == 2:
+            fnc = self.resolve(f"<{mo.group(1)} as Ord>::cmp", args)
+            if fnc is not None:
+                o = self.call_function(fnc, [self.ctx.ref_to(args[0]), self.ctx.ref_to(args[1])], fr.depth + 1)
+                first = T.eq(o.disc, 1) if mo.group(2) == "max" else T.ne(o.disc, 1)
+                return args[0] if self.decide(first) else args[1]
         # blanket `impl<T, U: From<T>> Into<U> for T`
         mi = re.match(r"^<(.+) as (?:std::|core::)?(?:convert::)?Into<(.+)>>::into$", callee)
         if mi:
@@ -1654,8 +1668,13 @@ def _is_assign(left):
 def explore(ctx: Ctx, fn: Function, args, capture_debug=True):
     work = [[]]
     paths = []
+    # cells behind `&mut` arguments (ctx.ref_to) are mutated by the execution: every path starts from the same initial
+    # contents and records its own final contents (Path.post); afterwards the cells hold the last returning path's state
+    init = [(fr, dict(fr.locals)) for fr in ctx.holders]
     while work:
         prefix = work.pop()
+        for fr, loc in init:
+            fr.locals = dict(loc)
         ex = Exec(ctx, prefix)
         outcome, value = None, None
         try:
@@ -1678,9 +1697,27 @@ def explore(ctx: Ctx, fn: Function, args, capture_debug=True):
                     dbg[name] = ex.read_place(ex.top_frame, parse_place(pl))
                 except Exception:
                     pass
-        paths.append(Path(list(ex.pc), outcome, value, ex.log, dbg))
+        pth = Path(list(ex.pc), outcome, value, ex.log, dbg)
+        pth.post = {id(fr): dict(fr.locals) for fr, _ in init}
+        paths.append(pth)
         work.extend(ex.alts)
         if len(paths) > ctx.max_paths:
             paths.append(Path([], "unsupported", "too many paths"))
             break
+    last = [p for p in paths if p.outcome == "return" and getattr(p, "post", None)]
+    if last:
+        for fr, _ in init:
+            fr.locals = dict(last[-1].post[id(fr)])
     return paths
+
+
+def post_value(ctx, path, ref):
+    """contents of the cell behind `ref` (a ctx.ref_to reference) at the end of `path`"""
+    fr = ref.frame
+    saved = fr.locals
+    fr.locals = dict(path.post[id(fr)])
+    try:
+        from .builtins import deref
+        return deref(Exec(ctx, []), ref)
+    finally:
+        fr.locals = saved
